@@ -756,9 +756,9 @@ func c05Lab(t *testing.T) {
 	if os.Getenv("VERIF_RACE") != "" {
 		return
 	}
-	V.Require("lab: requests of pinned dialogs between the unpinned ones", "lab: rotation over real backends", "lab: a backend answered a request without a To tag", "lab: tag-less request re-using the Call-ID and From tag of an earlier one")
+	V.Require("lab: a udp-only listen entry in front of a udp and a tcp backend", "lab: requests of pinned dialogs between the unpinned ones", "lab: rotation over real backends", "lab: a backend answered a request without a To tag", "lab: tag-less request re-using the Call-ID and From tag of an earlier one")
 	var svcs []*stdSvc
-	for _, v := range []stdVariant{{Pool: 1}, {Pool: 3}, {Pool: 6}} {
+	for _, v := range []stdVariant{{Pool: 1}, {Pool: 3}, {Pool: 6}, {Entry2Pool: true}} {
 		s, err := newStdSvc(v)
 		if err != nil {
 			V.HarnessError(t, "cannot start lab instance: %v", err)
@@ -773,6 +773,11 @@ func c05Lab(t *testing.T) {
 	rcheck(t, "lab-rotation", V.N(40, 300), func(rt *rapid.T) {
 		s := svcs[rapid.IntRange(0, len(svcs)-1).Draw(rt, "instance")]
 		entry := rapid.IntRange(0, 1).Draw(rt, "entry") // entry 0: 1/3/6 backends, entry 1: 2 backends
+		if s.v.Entry2Pool {
+			// a listen entry with a UDP port only and one UDP, one TCP backend
+			entry = 2
+			V.Class("lab: a udp-only listen entry in front of a udp and a tcp backend")
+		}
 		l := s.in.cfg.Listens[entry]
 		k := len(l.Backends)
 		n := rapid.IntRange(0, 60).Draw(rt, "requests")
